@@ -297,10 +297,10 @@ pub fn check_c13(ctx: &Ctx, known: &KnownFindings) -> Report {
     let r = drive(&prop, ctx.cases(1_000_000, 12_000_000), ctx, 13, &ks);
     rep.absorb(r);
     let mut req: Vec<String> = ["A", "AAAA", "NS", "CNAME", "PTR", "TXT", "MX", "SOA", "DS"].iter().map(|t| format!("valid:{}", t)).collect();
-    for f in ["label-62", "label-62-final", "maximal-name", "u32-zero", "u32-max", "txt-255", "txt-256", "txt-3825", "txt-escape", "mx-pref-0", "mx-pref-65535", "root-owner", "trailing-dot", "tab", "soa-newline", "keyword-lowercase"] {
+    for f in ["label-62", "label-62-final", "maximal-name", "u32-zero", "u32-max", "txt-255", "txt-256", "txt-3825", "txt-escape", "mx-pref-0", "mx-pref-65535", "root-owner", "trailing-dot", "tab", "soa-newline", "keyword-lowercase", "ds-digest-65531"] {
         req.push(format!("feature:{}", f));
     }
-    for d in ["ds-odd-hex", "ds-non-hex", "ds-empty-digest", "bad-ipv4", "bad-ipv6", "ttl-overflow", "field-removed", "field-added", "txt-missing-closing-quote", "txt-empty", "owner-label-too-long", "owner-empty-label", "class-not-in", "unsupported-type", "mx-pref-overflow"] {
+    for d in ["ds-odd-hex", "ds-non-hex", "ds-empty-digest", "ds-digest-65532", "bad-ipv4", "bad-ipv6", "ttl-overflow", "field-removed", "field-added", "txt-missing-closing-quote", "txt-empty", "owner-label-too-long", "owner-empty-label", "class-not-in", "unsupported-type", "mx-pref-overflow"] {
         req.push(format!("damaged:{}", d));
     }
     req.push("inserted".into());
@@ -350,6 +350,32 @@ pub fn c14_oracle(input: &[u8], zone: Option<&Name>, st: &mut Stats) -> PResult 
             match &exp {
                 None => fail!("C14 empty-label-accepted", "{} -> {}", desc(), hex(raw)),
                 Some(want) => ensure!(&got.0 == want, "C14 labels-differ", "{} -> {} but the input's labels are {}", desc(), got.show(), Name(want.clone()).show()),
+            }
+            // give the name to the question and read it back (cache filled first, as a caller may do)
+            let pkt = crate::gens::golden_packets()[0].clone();
+            if let Ok(Ok(mut pp)) = lib_parse(&pkt) {
+                let rr = catch(|| {
+                    let _ = pp.question_raw0().map(|q| q.0.len());
+                    let set = {
+                        let mut c = pp.into_iter_question().unwrap();
+                        c.set_raw_name(raw).map_err(|e| e.to_string())
+                    };
+                    set.map(|_| {
+                        let r0 = pp.question_raw0().map(|q| q.0.to_vec());
+                        let q1 = pp.question().map(|q| q.0);
+                        let q2 = pp.question().map(|q| q.0);
+                        (r0, q1, q2)
+                    })
+                });
+                match rr {
+                    Err(pm) => fail!(format!("C14 question-read-back-panic {}", panic_sig(&pm)), "{} {}", pm, desc()),
+                    Ok(Ok((r0, q1, q2))) => {
+                        ensure!(r0.as_deref() == Some(&raw[..]), "C14 question-raw-read-back-differs", "{}: question_raw0() = {:?}", desc(), r0.map(|r| hex(&r)));
+                        let want = got.to_text_lower();
+                        ensure!(q1.as_deref() == Some(&want[..]) && q2 == q1, "C14 question-read-back-differs", "{}: question() = {:?} / {:?}, want {:?}", desc(), q1.map(|v| String::from_utf8_lossy(&v).into_owned()), q2.map(|v| String::from_utf8_lossy(&v).into_owned()), String::from_utf8_lossy(&want));
+                    }
+                    Ok(Err(_)) => ensure!(!got.clean(), "C14 set_raw_name-refuses-clean-name", "{} -> {}", desc(), got.show()),
+                }
             }
             // give the name to a record and read it back
             let pkt = crate::gens::golden_packets()[0].clone();
